@@ -1,12 +1,13 @@
 // submdspan_mapping op family: one closure per (source layout, index type, tuple of slice kinds).
 #pragma once
 #include "mapsrv.hpp"
+#include "viewsrv.hpp"
 #include <tuple>
 namespace vh {
 // slice kinds: i = run-time index, r = std::pair<I,I>, t = std::tuple<I,I>, f = full_extent,
 //              s = strided_slice<I,I,I>, I = integral_constant index 1, R = tuple<IC<1>,IC<3>>,
 //              S = strided_slice<I, IC<4>, IC<2>> (run-time offset), Q = strided_slice<I, IC<5>, IC<2>>
-struct SI {}; struct SR {}; struct ST {}; struct SF {}; struct SS {}; struct SCI {}; struct SCR {}; struct SCS {}; struct SCQ {};
+struct SI {}; struct SR {}; struct ST {}; struct SF {}; struct SS {}; struct SCI {}; struct SCR {}; struct SCS {}; struct SCQ {}; struct SCU {}; struct SCZ {};
 template <class I> using icI = std::integral_constant<I, 1>;
 template <class I> auto mkSlice(SI, const std::vector<long long>& a, size_t& p) { return static_cast<I>(a[p++]); }
 template <class I> auto mkSlice(SR, const std::vector<long long>& a, size_t& p) { I b = static_cast<I>(a[p++]); I e = static_cast<I>(a[p++]); return std::pair<I, I>{b, e}; }
@@ -18,6 +19,9 @@ template <class I> auto mkSlice(SCR, const std::vector<long long>& a, size_t& p)
 template <class I> auto mkSlice(SCS, const std::vector<long long>& a, size_t& p) { I o = static_cast<I>(a[p++]); p += 2; return md::strided_slice<I, std::integral_constant<I, 4>, std::integral_constant<I, 2>>{o, {}, {}}; }
 
 template <class I> auto mkSlice(SCQ, const std::vector<long long>& a, size_t& p) { I o = static_cast<I>(a[p++]); p += 2; return md::strided_slice<I, std::integral_constant<I, 5>, std::integral_constant<I, 2>>{o, {}, {}}; }
+template <class I> auto mkSlice(SCU, const std::vector<long long>& a, size_t& p) { I o = static_cast<I>(a[p++]); I x = static_cast<I>(a[p++]); p++; return md::strided_slice<I, I, std::integral_constant<I, 1>>{o, x, {}}; }
+template <class I> auto mkSlice(SCZ, const std::vector<long long>& a, size_t& p) { I o = static_cast<I>(a[p++]); p += 2; return md::strided_slice<I, std::integral_constant<I, 0>, std::integral_constant<I, 2>>{o, {}, {}}; }
+template <class MP> struct submdspan_mapping_result_view { MP mapping; size_t offset; };
 template <class M> const char* layoutName() {
   using L = typename M::layout_type;
   return std::is_same_v<L, md::layout_left> ? "left" : std::is_same_v<L, md::layout_right> ? "right" : std::is_same_v<L, md::layout_stride> ? "stride" : "other";
@@ -56,21 +60,48 @@ template <class R> std::string fmtRes(const R& r, const Op& o) {
   if (o.op == "type") s += " pat=" + staticPat<E>();
   return s;
 }
-template <class M, class... K, size_t... Q> std::string doSub(const M& m, const Op& o, std::index_sequence<Q...>) {
-  using I = typename M::index_type; size_t p = 0;
-  std::vector<long long> a = o.arg;
-  // braced initialisation evaluates the slices left to right
-  std::tuple<decltype(mkSlice<I>(K{}, a, p))...> tup{mkSlice<I>(K{}, a, p)...};
-  auto r = submdspan_mapping(m, std::get<Q>(tup)...);
-  std::string s = fmtRes(r, o);
-  if (o.op != "alias") s += " sspan=" + num(static_cast<I>(m.required_span_size()));
-  return s;
-}
 // arg of a sub line: all slice values flattened, taken from sl=...
 inline std::vector<long long> sliceValues(const std::string& sl) {
   std::vector<long long> v; std::stringstream s2(sl); std::string one;
   while (std::getline(s2, one, ';')) { std::stringstream s3(one.size() > 1 ? one.substr(2) : std::string()); std::string x; while (std::getline(s3, x, ':')) if (!x.empty()) v.push_back(parseNum(x)); }
   return v;
+}
+template <class I, class R1T, size_t... P> std::string chain2(const R1T& r1, const std::vector<long long>& b, const Op& o, std::index_sequence<P...>) {
+  auto r2 = submdspan_mapping(r1.mapping, md::strided_slice<I, I, I>{static_cast<I>(b[3 * P]), static_cast<I>(b[3 * P + 1]), static_cast<I>(b[3 * P + 2])}...);
+  // report the final view relative to the ROOT handle
+  submdspan_mapping_result_view<decltype(r2.mapping)> v{r2.mapping, static_cast<size_t>(r1.offset) + static_cast<size_t>(r2.offset)};
+  Op o2 = o; o2.op = "alias"; std::string al = fmtRes(v, o2);
+  Op o3 = o; o3.op = "info"; return fmtRes(v, o3) + " " + al;
+}
+template <class M, class... K, size_t... Q> std::string doSub(const M& m, const Op& o, std::index_sequence<Q...>) {
+  using I = typename M::index_type; size_t p = 0;
+  std::vector<long long> a = o.arg;
+  // braced initialisation evaluates the slices left to right
+  std::tuple<decltype(mkSlice<I>(K{}, a, p))...> tup{mkSlice<I>(K{}, a, p)...};
+  if (o.op == "mds") {
+    // the mdspan-level submdspan: new handle only through accessor.offset(), accessor = offset_policy(accessor)
+    using L = typename M::layout_type; using V = md::mdspan<int, typename M::extents_type, L, StAcc<int>>;
+    const long h = static_cast<long>(parseNum(o.get("h"))); const int id = static_cast<int>(parseNum(o.get("id")));
+    V src(arena().base + h, m, StAcc<int>(id));
+    accessLog().clear();
+    auto sub = md::submdspan(src, std::get<Q>(tup)...);
+    auto r0 = submdspan_mapping(m, std::get<Q>(tup)...);
+    std::string s = "h=" + std::to_string(hOff(sub.data_handle())) + " acc=" + std::to_string(accId(sub.accessor())) + " n=" + std::to_string(accessLog().size());
+    if (!accessLog().empty()) s += " log=" + std::to_string(accessLog()[0].first) + "," + std::to_string(accessLog()[0].second);
+    s += " same=" + num(sub.mapping() == r0.mapping) + " ext=" + extList(sub.extents());
+    return s;
+  }
+  if (o.op == "ch") {
+    // a view of a view: second level = one strided_slice per dimension of the first result (values from sl2=)
+    auto r1 = submdspan_mapping(m, std::get<Q>(tup)...);
+    using M1 = decltype(r1.mapping); constexpr size_t R1 = M1::extents_type::rank();
+    std::vector<long long> b = sliceValues(o.get("sl2"));
+    return chain2<I>(r1, b, o, std::make_index_sequence<R1>());
+  }
+  auto r = submdspan_mapping(m, std::get<Q>(tup)...);
+  std::string s = fmtRes(r, o);
+  if (o.op != "alias") s += " sspan=" + num(static_cast<I>(m.required_span_size()));
+  return s;
 }
 template <Kind KD, class E, class... K> void regSub(const std::string& key) {
   registry()[key] = [](const Op& o0) -> std::string {
